@@ -82,6 +82,8 @@ def blsPad (a : Bls.Op) (n : Nat) : M Bls.Op := if n < 1 then throw .valueError 
 def blsRepeat (a : Bls.Op) (k : Nat) : Bls.Op := .rep a k
 def blsRepeatRange (a : Bls.Op) (k : Nat) : Bls.Op := .rrep a k
 def blsUnite (l : List Bls.Op) : M Bls.Op := if l.isEmpty then throw .valueError else pure (.uni l)
+/-- `len(bls)`: numerical expansion -/
+def blsLen (a : Bls.Op) : Nat := (Bls.Op.expand a).length
 /-- `bls.is_aligned_at(d)`, i.e. `set(bls % d) == {0}` -/
 def blsIsAlignedAt (a : Bls.Op) (d : Nat) : M Bool := if d = 0 then throw .zeroDivision else pure (Bls.isAlignedAt a d)
 
